@@ -3,9 +3,9 @@ package checks
 import (
 	"fmt"
 	"os"
-	"time"
 	"sort"
 	"strings"
+	"time"
 
 	"verif/harness/core"
 	"verif/harness/gen"
